@@ -674,3 +674,161 @@ pub fn run_resolve(_args: &[String]) {
         let _ = out.flush();
     }
 }
+
+// ---------------------------------------------------------------------------------------------------------------
+// C19 (language-server half): every range the real server publishes or answers lies inside the document it is about.
+// ---------------------------------------------------------------------------------------------------------------
+
+/// All valid LSP positions of a text: the (line, character) of every char-boundary offset, by counting.
+fn valid_positions(text: &str) -> HashSet<(u64, u64)> {
+    let mut out = HashSet::new();
+    let (mut line, mut col) = (0u64, 0u64);
+    out.insert((0, 0));
+    for ch in text.chars() {
+        if ch == '\n' {
+            line += 1;
+            col = 0;
+        } else {
+            col += 1;
+        }
+        out.insert((line, col));
+    }
+    out
+}
+
+fn range_problem(r: &Value, text: &str) -> Option<String> {
+    let p = |v: &Value| (v["line"].as_u64().unwrap_or(u64::MAX), v["character"].as_u64().unwrap_or(u64::MAX));
+    let (s, e) = (p(&r["start"]), p(&r["end"]));
+    let valid = valid_positions(text);
+    if !valid.contains(&s) || !valid.contains(&e) {
+        return Some(format!("range ({},{})-({},{}) is not inside the document ({} lines)", s.0, s.1, e.0, e.1, text.matches('\n').count() + 1));
+    }
+    if s > e {
+        return Some(format!("range start ({},{}) is after its end ({},{})", s.0, s.1, e.0, e.1));
+    }
+    None
+}
+
+fn collect_ranges(v: &Value, out: &mut Vec<Value>) {
+    match v {
+        Value::Object(m) => {
+            for (k, x) in m {
+                if (k == "range" || k == "selectionRange" || k == "targetRange") && x.get("start").is_some() {
+                    out.push(x.clone());
+                }
+                collect_ranges(x, out);
+            }
+        }
+        Value::Array(a) => a.iter().for_each(|x| collect_ranges(x, out)),
+        _ => {}
+    }
+}
+
+/// `ivh lsprange --dir <abs dir>`; JSON lines {id, entry, dep (string|null), dep_open (bool)}; one JSON result per line.
+pub fn run_lsprange(args: &[String]) {
+    let dir = arg(args, "--dir").expect("--dir");
+    std::fs::create_dir_all(&dir).expect("dir");
+    let stdin = std::io::stdin();
+    let stdout = std::io::stdout();
+    let mut out = stdout.lock();
+    for line in std::io::BufRead::lines(stdin.lock()) {
+        let Ok(line) = line else { break };
+        if line.trim().is_empty() {
+            continue;
+        }
+        let v: Value = serde_json::from_str(&line).expect("case json");
+        let entry = v["entry"].as_str().unwrap_or("").to_string();
+        let dep = v["dep"].as_str().map(|s| s.to_string());
+        let dep_path = format!("{dir}/b.incn");
+        match &dep {
+            Some(t) => std::fs::write(&dep_path, t).expect("write dep"),
+            None => {
+                let _ = std::fs::remove_file(&dep_path);
+            }
+        }
+        std::fs::write(format!("{dir}/a.incn"), &entry).expect("write entry");
+        let mut w = World::new();
+        w.initialize();
+        let mut problems: Vec<String> = Vec::new();
+        let res = std::panic::catch_unwind(std::panic::AssertUnwindSafe(|| {
+            w.arrive(&dir, &Event { op: "open".into(), doc: "A".into(), ver: 1, text: entry.clone() });
+            w.settle();
+            if v["dep_open"].as_bool() == Some(true) {
+                if let Some(t) = &dep {
+                    w.arrive(&dir, &Event { op: "open".into(), doc: "B".into(), ver: 1, text: t.clone() });
+                    w.settle();
+                }
+            }
+        }));
+        if res.is_err() {
+            problems.push("the server panicked while analysing".into());
+        }
+        let text_of = |uri: &str| -> Option<String> {
+            if uri == uri_of(&dir, "A") {
+                Some(entry.clone())
+            } else if uri == uri_of(&dir, "B") {
+                dep.clone()
+            } else {
+                None
+            }
+        };
+        let mut n_ranges = 0u64;
+        let mut n_diags = 0u64;
+        for p in w.published.clone() {
+            let uri = p["uri"].as_str().unwrap_or("").to_string();
+            let Some(text) = text_of(&uri) else {
+                if p["diagnostics"].as_array().is_some_and(|a| !a.is_empty()) {
+                    problems.push(format!("diagnostics published for a document that does not exist: {uri}"));
+                }
+                continue;
+            };
+            for d in p["diagnostics"].as_array().cloned().unwrap_or_default() {
+                n_diags += 1;
+                n_ranges += 1;
+                if let Some(why) = range_problem(&d["range"], &text) {
+                    problems.push(format!("diagnostic {:?} for {}: {why}", d["message"].as_str().unwrap_or(""), if uri.ends_with("a.incn") { "the entry document" } else { "the dependency" }));
+                }
+                for ri in d["relatedInformation"].as_array().cloned().unwrap_or_default() {
+                    let ruri = ri["location"]["uri"].as_str().unwrap_or("").to_string();
+                    if let Some(rt) = text_of(&ruri) {
+                        n_ranges += 1;
+                        if let Some(why) = range_problem(&ri["location"]["range"], &rt) {
+                            problems.push(format!("related information of {:?}: {why}", d["message"].as_str().unwrap_or("")));
+                        }
+                    }
+                }
+            }
+        }
+        // symbol and hover replies for the entry document
+        let uri = uri_of(&dir, "A");
+        let sym = w.request("textDocument/documentSymbol", json!({"textDocument": {"uri": uri}}));
+        let mut rs = Vec::new();
+        if let Some(r) = sym {
+            collect_ranges(&serde_json::to_value(&r).unwrap_or(Value::Null), &mut rs);
+        }
+        let n_lines = entry.matches('\n').count() as u64 + 1;
+        for l in 0..n_lines {
+            for c in [0u64, 4, 8] {
+                for m in ["textDocument/hover", "textDocument/definition"] {
+                    let r = w.request(m, json!({"textDocument": {"uri": uri}, "position": {"line": l, "character": c}}));
+                    if let Some(r) = r {
+                        let val = serde_json::to_value(&r).unwrap_or(Value::Null);
+                        // definition answers may point into the dependency: only ranges for the entry URI are judged here
+                        if m == "textDocument/hover" || val.to_string().contains("a.incn") && !val.to_string().contains("b.incn") {
+                            collect_ranges(&val, &mut rs);
+                        }
+                    }
+                }
+            }
+        }
+        for r in rs {
+            n_ranges += 1;
+            if let Some(why) = range_problem(&r, &entry) {
+                problems.push(format!("symbol / hover / definition reply: {why}"));
+            }
+        }
+        problems.sort();
+        problems.dedup();
+        let _ = writeln!(out, "{}", json!({"id": v["id"], "problems": problems, "ranges": n_ranges, "diagnostics": n_diags, "publishes": w.published.len()}));
+    }
+}
